@@ -9,6 +9,7 @@ m3 == [na |-> 2, nb |-> 1, g |-> <<<<-4, 1, 0>>, <<2, -2, 8>>>>, q |-> <<500, 0>
 x1 == [na |-> 1, nb |-> 0, g |-> <<<<2, -1, 3>>>>, q |-> <<-875>>]
 
 x0 == [na |-> 0, nb |-> 0, g |-> <<>>, q |-> <<>>]                 \* a molecule without atoms
+Pool1  == <<m1>>
 Pool2  == <<m1, m2>>
 Pool2x0 == <<m1, m2, x1, x0>>
 Pool2x == <<m1, m2, x1>>
